@@ -21,6 +21,8 @@ pub struct Cycle {
     pub go: GoSpec,
     pub stop_after_us: Option<u64>,
     pub extra: Vec<Gui>,
+    /// commands a GUI may legitimately send while the search is running (ucinewgame, debug, isready, uci)
+    pub during: Vec<Gui>,
 }
 
 #[derive(Clone, Debug)]
@@ -87,7 +89,7 @@ pub fn random_go(rng: &mut StdRng, root: &Pos, long_ok: bool) -> (GoSpec, Option
         }
         _ => {
             g.infinite = true;
-            stop = Some(*[0u64, 50, 1000, 20_000, 150_000].choose(rng).unwrap());
+            stop = Some(*[0u64, 50, 1000, 20_000, 150_000, 400_000].choose(rng).unwrap());
         }
     }
     if rng.gen_bool(0.25) {
@@ -108,6 +110,17 @@ pub fn random_go(rng: &mut StdRng, root: &Pos, long_ok: bool) -> (GoSpec, Option
         }
     }
     (g, stop)
+}
+
+/// commands sent while a search runs (never position / go: the protocol forbids those during a search)
+pub fn random_during(rng: &mut StdRng) -> Vec<Gui> {
+    let mut v = Vec::new();
+    if rng.gen_bool(0.35) {
+        for _ in 0..rng.gen_range(1..=3) {
+            v.push(match rng.gen_range(0..5) { 0 | 1 => Gui::NewGame, 2 => Gui::Debug(rng.gen_bool(0.5)), 3 => Gui::IsReady, _ => Gui::Uci });
+        }
+    }
+    v
 }
 
 pub fn random_root(rng: &mut StdRng, starts: &mut gen::Starts) -> ((Option<String>, Vec<String>), Root) {
@@ -160,8 +173,15 @@ pub fn run_cycle(d: &mut dyn Driver, c: &Cycle) -> CycleResult {
     }
     if let Err(e) = d.send(&Gui::Go(c.go.clone())) { return CycleResult::Dead(e); }
     if let Some(us) = c.stop_after_us {
-        if us > 0 { std::thread::sleep(Duration::from_micros(us)); }
+        let parts = c.during.len() as u64 + 1;
+        for g in &c.during {
+            if us > 0 { std::thread::sleep(Duration::from_micros(us / parts)); }
+            if let Err(e) = d.send(g) { return CycleResult::Dead(e); }
+        }
+        if us > 0 { std::thread::sleep(Duration::from_micros(us / parts)); }
         if let Err(e) = d.send(&Gui::Stop) { return CycleResult::Dead(e); }
+    } else {
+        for g in &c.during { if let Err(e) = d.send(g) { return CycleResult::Dead(e); } }
     }
     match d.until_bestmove(WATCHDOG) {
         Ok(outs) => CycleResult::Answered(collect(outs)),
